@@ -137,7 +137,11 @@ Cons(m, g, ev) ==
 Holds(m, g, ev) == Ante(m, g, ev) => Cons(m, g, ev)
 
 \* classification (only used to tell findings apart)
-Key(m, g, ev) == g.fl \o ":" \o ev.op.op
+\* err = -4 is logged by the harness only when the host refused the call for exceeding the network's
+\* resource limits (ledger entry size) while those limits are emulated ("limits": "mainnet")
+Key(m, g, ev) == IF m = "C14_agree" /\ "err" \in DOMAIN ev /\ ev.err = -4
+                 THEN "spending:enforce_over_ledger_entry_size_limit"
+                 ELSE g.fl \o ":" \o ev.op.op
 
 Failing(g, ev) == {m \in Monitors : ~Holds(m, g, ev)}
 =============================================================================
